@@ -13,21 +13,21 @@ ENGINES = {
 # id -> (engine, technique, level text, level note, design ref)
 CHECKS = {
     'C01': ('E1', 'bounded-exhaustive enumeration of database shapes x configuration grid vs posting-list reference',
-            'Every scheme x every point of the supported configuration grid x every integer partition of every N<=8 (12 thorough) in both keyword '
+            'Every scheme x every point of the supported configuration grid (incl. misaligned-width, wide-keyword and capacity-upper-bound points) x every integer partition of every N<=8 (12 thorough) in both keyword '
             'orders, plus boundary profiles around every block/level/2^k/index-width/case-split length: KeyGen, EDBSetup and a search of EVERY '
-            'stored keyword run on the real code; result compared with DB[w]. Exhaustive over shapes inside the bounds.',
+            'stored keyword run on the real code; result compared with DB[w]; one scheme object per configuration reused across the cases of a unit and a per-scheme sweep over all configuration points in one process. Exhaustive over shapes inside the bounds.',
             'One DRBG value assignment per shape and seed; shapes above the bounds are not covered.', 'DESIGN.md 4/C01'),
     'C02': ('E1', 'bounded-exhaustive enumeration of databases x adversarially close absent keywords',
             'All partitions of N<=6 (9) per scheme/configuration point x the absent-keyword family (prefix, suffix, +byte, +NUL, bit flips, '
-            'case swap, concatenations, random, maximal length): search must return empty and not raise.',
+            'case swap, concatenations, random, maximal length, empty, and the keywords of a second database under the same key): search must return empty and not raise.',
             'Absent keywords are derived from at most 3 stored keywords per database; value-level collisions assumed negligible.', 'DESIGN.md 4/C02'),
     'C03': ('E1', 'bounded-exhaustive enumeration through three separate scheme instances joined only by wire bytes',
             'Per scheme/configuration point/partition: client, JSON-rebuilt server and JSON-rebuilt reloaded client exchange only serialized '
-            'key, EDB, token and result; content and round-trip equality checked for every keyword, present and absent.',
+            'key, EDB, token and result; content and round-trip equality checked for every keyword, present and absent; 10 patterned keys per point; all configuration points swept in one process in both directions.',
             'pickle is trusted as a container format; N<=5 (8).', 'DESIGN.md 4/C03'),
     'C04': ('E1', 'bounded-exhaustive enumeration + byte-level inspection of serialized index and tokens',
             'All partitions of N<=6 (9) x 2 content variants (distinct ids / one id under every keyword): substring absence of every keyword '
-            'and identifier, pairwise-distinct ciphertext entries inside one index, disjoint entries across two setups of the same (K, DB).',
+            'and identifier, pairwise-distinct ciphertext entries inside one index, disjoint entries across two setups of the same (K, DB) by one scheme object, incl. setups of 16..256 postings.',
             'Decided for DRBG values only; ciphertext entries located by position per scheme.', 'DESIGN.md 4/C04'),
     'C05': ('E1', 'exhaustive enumeration of all list-length profiles, grouped by public size parameter, generic shape walk',
             'ALL partitions of every N<=12 (16) per scheme/configuration point, two content assignments each, grouped by pi_S: the generic '
@@ -39,7 +39,7 @@ CHECKS = {
             'Chance coincidence <= 1/12! per array case.', 'DESIGN.md 4/C06'),
     'C07': ('E2', 'explicit-state search over search histories (BFS on canonical state + all sequences to depth k, no dedup)',
             'Per scheme x 2 configurations x 3 databases: BFS over (EDB bytes, token bytes, config fingerprint) reaches a fixpoint with one '
-            'state; all 5^k search sequences k<=4 (6) executed without dedup; inputs (DB, cfg dict, key bytes, DEFAULT_CONFIG) compared with deep copies.',
+            'state; all 5^k search sequences k<=4 (6) executed without dedup against answers computed by a scheme object that never searched anything else; inputs (DB, cfg dict, key bytes, DEFAULT_CONFIG) compared with deep copies.',
             'Hidden state outside EDB/token/scheme objects (e.g. module globals) would only be seen through changed answers.', 'DESIGN.md 4/C07'),
     'C08': ('E1', 'bounded-exhaustive enumeration of configuration dictionaries (single + pairwise departures, deletions, names)',
             'Every single and pairwise departure over the full value domain of every field, every primitive name, every single-field deletion, '
@@ -47,18 +47,18 @@ CHECKS = {
             'Triples only for length fields (thorough); databases valid for the configuration only.', 'DESIGN.md 4/C08'),
     'C09': ('E3', 'exhaustive enumeration of client-reload / server-restart placements on the virtual network (real client, server, websockets)',
             'All 9 schemes x 2 JSON databases x all 2^6 keep/reload placements over the workflow boundaries x 3 server-restart options; every '
-            'keyword and an absent keyword searched twice; delivered bytes, hex/int/raw/utf8 renderings compared with the JSON database.',
+            'keyword and an absent keyword searched twice; delivered bytes, hex/int/raw/utf8 renderings compared with the JSON database; plus two interleaved services per scheme, patterned keys, all 27 cleanup-timer firings between the networked steps, an early-loaded second client object.',
             'One client at a time, hence no scheduling choices; in-memory transport (loopback-TCP replays: mc/loopback.py).', 'DESIGN.md 4/C09'),
     'C10': ('E2', 'explicit-state BFS to fixpoint + all histories to depth k over the real connection handler on the virtual network, 3-state reference model',
-            'Alphabet of 9 protocol events (two configs, two indexes, search, reconnect before/after the cleanup delay, foreign sid, unknown type) '
+            'Alphabet of 12 protocol events (two configs, two indexes, search, reconnect before/after the cleanup delay, foreign sid, unknown type, three malformed messages) '
             'applied to every reachable canonical state (model + files + active Service snapshot + registry + timers); all histories of length <= 4 (5) without dedup.',
             'One connection at a time; canonical state abstracts the number of stale cleanup timers to 0/1/several.', 'DESIGN.md 4/C10'),
     'C11': ('E2', 'explicit-state BFS to fixpoint + all histories to depth k over the real client Service (fresh object per command) against a live server, 5-flag reference model',
-            'Alphabet of 7 client operations incl. an uninstantiable configuration; every reachable flag set x every operation; all histories of '
-            'length <= 4 (6); refusal leaves files byte-identical; persisted flags; key bytes write-once; searches after upload.',
+            'Alphabet of 8 client operations incl. an uninstantiable configuration and create-again; every reachable flag set x every operation; all histories of '
+            'length <= 5 (6); refusal leaves files byte-identical; persisted flags; key bytes write-once; searches after upload; the same through frontend/client/commands.py (10 commands, one process).',
             'PiBas (thorough: + CT14); operations before any create use a well-formed unknown sid as the CLI would.', 'DESIGN.md 4/C11'),
     'C12': ('E3', 'stateless exploration of all delivery/timer schedules (deviation-bounded for 3 connections) of the real server under scripted raw connections',
-            'Every ordered pair of 5 scripts x 3 initial durable states: ALL schedules (no cap hit in quick); 6 triples x 3 states with <= 1 (3) '
+            'Every ordered pair of 6 scripts (incl. open-and-close-while-waiting) x 3 initial durable states: ALL schedules (no cap hit in quick); 9 triples x 3 states with <= 2 (4) '
             'deviations; oracles O1-O5 (serialisation at the instant of each server write, monotone durable state, single acknowledgement, control notice, no stuck request).',
             'Timer rule (only <= 2 s timers are schedulable), per-connection FIFO, client-bound frames eager; 3 connections only deviation-bounded.', 'DESIGN.md 4/C12'),
     'C13': ('E4', 'exhaustive crash-point enumeration (kill one component before/after every file-system mutation) on the virtual network with a crash file system',
@@ -66,10 +66,10 @@ CHECKS = {
             '(thorough: + Pi2Lev, DP17): survivor runs on, dead component restarted on the same directory, probe handshake, client reload, retry rule, rest of the workflow, final searches.',
             'Crash model of the property (no write reordering, no torn 8 KiB chunk); SIGKILL replays of the interposer: mc/loopback.py.', 'DESIGN.md 4/C13'),
     'C14': ('E1', 'exhaustive enumeration of message lengths x key sizes vs independent AES-CBC/PKCS7 computation',
-            'All message lengths 0..80 (0..300 + long) x 3 key sizes x 3 keys; declared-length variants; all wrong key lengths 0..40; constructor domain.',
+            'All message lengths 0..200 (0..300 + long) x 3 key sizes x 3 keys; declared-length variants; all wrong key lengths 0..40; constructor domain; 600 (5000) encryptions by one object with pairwise distinct IVs.',
             'cryptography\'s AES is the trusted reference; keys are DRBG values.', 'DESIGN.md 4/C14'),
     'C15': ('E1', 'exhaustive enumeration of the whole domain {0,1}^n (bijection) + bounded widths',
-            'BitwiseFFX: all 2^n inputs for n=2..11 (13) under 3 keys - bijection and both inverses; wide n incl. around 160/320/2047 bits; '
+            'BitwiseFFX: all 2^n inputs for n=2..12 (13) under 3 keys - bijection and both inverses; all widths 12..2..12 under ONE key in one process through the PRP wrapper; wide n incl. around 160/320/2047 bits; '
             'Luby-Rackoff: all 65536 two-byte messages, even lengths 2..64 sampled; all length contracts.',
             '3 keys per width; wide widths use 20 DRBG inputs.', 'DESIGN.md 4/C15'),
     'C16': ('E1', 'bounded-exhaustive enumeration vs independent RFC 5246 P_hash and counter-mode references',
@@ -83,17 +83,17 @@ CHECKS = {
     'C18': ('E1', 'bounded-exhaustive enumeration vs list-of-bits reference model',
             'Every Bitset operation named by the property is executed for every value of every length 0..8 (all operand pairs for '
             'binary operators, all shifts, all k, all slices) and for boundary/DRBG values of lengths 9..300, and compared with an '
-            'MSB-first list-of-bits model; exhaustive inside the stated bounds, nothing sampled below length 9.',
+            'MSB-first list-of-bits model, and every unary operation is applied to every first-level RESULT of every operator (lengths 1..6); exhaustive inside the stated bounds, nothing sampled below length 9.',
             'Trusts the 30-line list model; lengths above 8 are covered by boundary values (0,1,2^k-1,2^k,2^k+1) plus 3 DRBG values per length only.',
             'DESIGN.md 4/C18'),
     'C19': ('E2', 'explicit-state BFS to fixpoint over the real array + undeduplicated depth-bounded DFS, list reference model',
             'For every (len<=3 (4), item_size<=2 (3), items_per_file<=len+2): every event of a ~3k-event alphabet (all indices, all raw slices, '
-            'all bad-element positions, close/reopen) applied to every reachable canonical state; all histories to depth 3 (4) on larger '
+            'all bad-element positions, close/reopen) applied to every reachable canonical state (cold-cache states included: read-backs leave no trace), complete read-back incl. close+open after every state-changing transition; all histories to depth 3 (4) on larger '
             'configurations without dedup.',
             'Fixpoint only for small arrays; lengths up to 40 only by depth-bounded search (thorough).', 'DESIGN.md 4/C19'),
     'C20': ('E2', 'explicit-state BFS to fixpoint over the real dictionaries + undeduplicated depth-bounded DFS, dict reference model',
             'PickledDict full life cycle and DBMDict within one session: every event applied to every reachable (ordered items, closed) state '
-            'over 3 (4) keys x 3 values; all histories to depth 4 (5) without dedup; from_dict independence for every sub-dictionary.',
+            'over 3 (4) keys x 3 values, complete read-back (and close+open / sync) after every state-changing transition; all histories to depth 4 (5) without dedup; from_dict independence for every sub-dictionary.',
             'dbm.dumb only; DBMDict reopen is outside the property.', 'DESIGN.md 4/C20'),
 }
 
